@@ -62,9 +62,9 @@ fn st() -> impl Strategy<Value = St> {
     let tok = prop_oneof![
         2 => Just(TokSel::None),
         2 => Just(TokSel::Admin),
-        4 => (0u8..8, any::<u16>()).prop_map(|(k, p)| TokSel::AdminMut(k, p)),
+        6 => (0u8..13, any::<u16>()).prop_map(|(k, p)| TokSel::AdminMut(k, p)),
         6 => (0u8..4).prop_map(TokSel::Session),
-        10 => (0u8..4, 0u8..8, any::<u16>()).prop_map(|(i, k, p)| TokSel::SessionMut(i, k, p)),
+        10 => (0u8..4, 0u8..13, any::<u16>()).prop_map(|(i, k, p)| TokSel::SessionMut(i, k, p)),
         2 => (0u8..4).prop_map(TokSel::Foreign),
         2 => (0u8..6).prop_map(TokSel::Garbage),
     ];
@@ -127,7 +127,7 @@ fn mutate_token(t: &str, kind: u8, pos: u16) -> Option<String> {
     }
     let cs: Vec<char> = t.chars().collect();
     let i = (pos as usize * cs.len()) >> 16;
-    let out: String = match kind % 8 {
+    let out: String = match kind % 13 {
         0 => cs[..i].iter().collect(),
         1 => cs[..cs.len() - 1].iter().collect(),
         2 => {
@@ -143,6 +143,43 @@ fn mutate_token(t: &str, kind: u8, pos: u16) -> Option<String> {
         }
         5 => t.trim_end_matches('=').to_string(),
         6 => t.replace('+', "-").replace('/', "_"),
+        // the same characters in another order (a comparison that only looks at what characters there are,
+        // or that lets differences cancel each other, accepts these)
+        8 => {
+            let mut c2 = cs.clone();
+            let j = (i + 1) % c2.len();
+            c2.swap(i, j);
+            c2.into_iter().collect()
+        }
+        9 => {
+            let mut c2 = cs.clone();
+            let n = c2.len().max(1);
+            c2.rotate_left((1 + i) % n);
+            c2.into_iter().collect()
+        }
+        10 => cs.iter().rev().collect(),
+        // the same bit flipped in two characters
+        11 => {
+            let mut c2: Vec<u8> = t.bytes().collect();
+            let j = (i + 1 + (pos as usize % 3)) % c2.len();
+            if i == j || !t.is_ascii() {
+                return None;
+            }
+            let bit = 1u8 << (pos % 5);
+            c2[i] ^= bit;
+            c2[j] ^= bit;
+            if c2.iter().any(|b| !b.is_ascii_graphic()) {
+                return None;
+            }
+            String::from_utf8(c2).ok()?
+        }
+        // two characters exchanged at a distance
+        12 => {
+            let mut c2 = cs.clone();
+            let j = c2.len() - 1 - i;
+            c2.swap(i, j);
+            c2.into_iter().collect()
+        }
         _ => {
             let mut raw = base64::engine::general_purpose::STANDARD.decode(t.as_bytes()).ok()?;
             if raw.is_empty() {
